@@ -943,4 +943,29 @@ example : tanhIE .pinf .pinf = .ok (1, 1) := by decide +kernel
 example : expIE .pinf (.fin 1) = .error .Assertion := by decide +kernel
 
 
+/-! ## `activation.tanh` (single-occurrence form since `fa5d3fa`) -/
+
+/-- the operations of `activation.tanh` are those of `methods.tanh` -/
+theorem atanhIE_eq_tanhIE (a b : EV) : atanhIE a b = tanhIE a b := rfl
+
+/-- `activation.tanh`, for any positive monotone `E` in place of `exp`: no error, and the result is the
+exact range of `1 − 2/(1+E(2x))` over `[lo,hi]` (enclosure, both bounds attained at the endpoints) -/
+theorem atanh_sound (E : ℚ → ℚ) (hpos : ∀ x, 0 < E x) (hmono : ∀ u v, u ≤ v → E u ≤ E v)
+    (lo hi : ℚ) (h : lo ≤ hi) :
+    atanhIE (.fin (E (2 * lo))) (.fin (E (2 * hi))) = .ok (1 - 2 / (1 + E (2 * lo)), 1 - 2 / (1 + E (2 * hi))) ∧
+    ∀ x, lo ≤ x → x ≤ hi →
+      1 - 2 / (1 + E (2 * lo)) ≤ 1 - 2 / (1 + E (2 * x)) ∧ 1 - 2 / (1 + E (2 * x)) ≤ 1 - 2 / (1 + E (2 * hi)) := by
+  rw [atanhIE_eq_tanhIE, tanhIE_fin]
+  exact tanh_exact E hpos hmono lo hi h
+
+/-- `exp(2 hi)` overflowed: `[1 − 2/(1+E(2 lo)), 1]` still encloses -/
+theorem atanh_overflow_sound (E : ℚ → ℚ) (hpos : ∀ x, 0 < E x) (hmono : ∀ u v, u ≤ v → E u ≤ E v) (lo : ℚ) :
+    atanhIE (.fin (E (2 * lo))) .pinf = .ok (1 - 2 / (1 + E (2 * lo)), 1) ∧
+    ∀ x, lo ≤ x → 1 - 2 / (1 + E (2 * lo)) ≤ 1 - 2 / (1 + E (2 * x)) ∧ 1 - 2 / (1 + E (2 * x)) ≤ 1 := by
+  rw [atanhIE_eq_tanhIE]
+  exact tanh_overflow_sound E hpos hmono lo
+
+/-- both endpoints beyond the overflow threshold (the input that raised before `fa5d3fa`): `[1, 1]` -/
+example : atanhIE .pinf .pinf = .ok (1, 1) := by decide +kernel
+
 end Pun.Elem
